@@ -5,6 +5,7 @@ Channel `sandbox` (C08):
   sandbox probe|probei <cfg> <name>       battery of call shapes for one name
   sandbox sweep  cli <name>,<name>,…      the batteries of many names in one REPL session
   sandbox script <cfg> <mode> <script>    one script
+  sandbox history <cfg> <gate> <name>     two-text histories: text 1 binds <gate>, the probes of <name> run later
   sandbox tuples <cfg> <name> <lo>-<hi>   every argument tuple of length lo…hi over a value pool
 with cfg ∈ {bare, std, cli}. The model of a sandboxed configuration is the reference graph of
 Generated/CallGraph.lean, for which Props/C08.lean proves that no outside-world primitive is
@@ -30,6 +31,8 @@ def handle (toks : List String) : String :=
       | [a, b] => a.toNat?.isSome && b.toNat?.isSome
       | _ => false
     if (c == "bare" || c == "std") && okRange && (parseCodes? n).isSome then "clean\tclean" else "bad-op\t-"
+  | ["history", c, g, n] =>
+    if (c == "bare" || c == "std") && (parseCodes? g).isSome && (parseCodes? n).isSome then "clean\tclean" else "bad-op\t-"
   | ["sweep", "cli", ns] =>
     if (ns.splitOn ",").all (fun n => (parseCodes? n).isSome) then "clean\tclean" else "bad-op\t-"
   | ["script", c, m, s] =>
